@@ -98,7 +98,7 @@ CLAIMED = {
          "props/C12strict.v closes that the DISTANCE of a mate is not kept (mate in three preferred to mate in two on 1k6/8/2RK4/8/3Q4/8/8/8 w). PARTIAL: completeness of "
          "clause 2 for checking key moves and of clause 3, and anything depending on graph-history interaction (the key ignores clock and path), are not theorems; those "
          "are judged on the engine: committed mate corpus and "
-         "9 000 (quick) / 400 000 (thorough) random sparse and maximal-mobility positions x 8-10 sequences of searches sharing the cache, every chosen move judged by a mate "
+         "9 000 (quick) / 150 000 (thorough) random sparse and maximal-mobility positions x 8-10 sequences of searches sharing the cache, every chosen move judged by a mate "
          "oracle (validated against the Coq oracle each run) and every mate score confirmed by an exhaustive memoised solver.",
          TB + "key_sem (a key collision never confuses a won/lost position with one that is not) and key injectivity for clause 1 are hypotheses; completeness of clauses 2-3 "
          "with the cache on is validated, not proved.", "Coq proofs (mate-soundness invariant of the cache; two-mode invariant for mate in one; mate values of the exact negamax) + oracle-judged hunt on the engine"),
